@@ -142,4 +142,379 @@ theorem Jac.mulAssign_correct_lt (P : Jac F) (hP : M.ValidJ P) (k : ℕ) (hk : k
   have := Jac.mulAssign_correct M P hP k
   rwa [Nat.mod_eq_of_lt hk] at this
 
+/-! ## `precomp_3` / `mul_precomp_3` -/
+
+/-- what `mul_precomp_3` needs from its `pre` argument -/
+def Precomp3Spec (A : Aff F) (pre : List (Aff F)) : Prop :=
+  ∃ a1 a2 a3, pre[0]? = some a1 ∧ pre[1]? = some a2 ∧ pre[2]? = some a3 ∧
+    IsMulA M (M.absA A) a1 (2 ^ 64) ∧ IsMulA M (M.absA A) a2 (2 ^ 128) ∧
+    IsMulA M (M.absA A) a3 (2 ^ 192)
+
+theorem precomp3_spec (A : Aff F) (hA : M.ValidA A) :
+    ∃ a1 a2 a3, A.precomp3 = some [a1, a2, a3] ∧
+      IsMulA M (M.absA A) a1 (2 ^ 64) ∧ IsMulA M (M.absA A) a2 (2 ^ 128) ∧
+      IsMulA M (M.absA A) a3 (2 ^ 192) := by
+  have h0 : IsMulJ M (M.absA A) A.toJac 1 := (IsMulA.self hA).toJac
+  have h1 := (h0.doubleN 64).cast (c' := 2 ^ 64) (by norm_num)
+  obtain ⟨a1, e1, ha1⟩ := h1.toAffine
+  have h2 := (h1.doubleN 64).cast (c' := 2 ^ 128) (by norm_num)
+  obtain ⟨a2, e2, ha2⟩ := h2.toAffine
+  have h3 := (h2.doubleN 64).cast (c' := 2 ^ 192) (by norm_num)
+  obtain ⟨a3, e3, ha3⟩ := h3.toAffine
+  refine ⟨a1, a2, a3, ?_, ha1, ha2, ha3⟩
+  simp [Aff.precomp3, e1, e2, e3]
+
+theorem precomp3Table_spec (A : Aff F) (hA : M.ValidA A) (pre : List (Aff F))
+    (hpre : Precomp3Spec M A pre) :
+    ∃ tbl, A.precomp3Table pre = some tbl ∧
+      ∀ n < 16, ∃ e, tbl[n]? = some e ∧ IsMulJ M (M.absA A) e (spread 64 4 n) := by
+  obtain ⟨a1, a2, a3, e1, e2, e3, h1, h2, h3⟩ := hpre
+  have hA' := IsMulA.self hA
+  refine ⟨_, by simp [Aff.precomp3Table, e1, e2, e3]; rfl, ?_⟩
+  intro n hn
+  have t1 := hA'.toJac
+  have t2 := h1.toJac
+  have t4 := h2.toJac
+  have t8 := h3.toJac
+  have t6 := t2.addMixed h2
+  interval_cases n <;> simp
+  · exact IsMulJ.zero
+  · exact t1.cast (by decide)
+  · exact t2.cast (by decide)
+  · exact (t2.addMixed hA').cast (by decide)
+  · exact t4.cast (by decide)
+  · exact (t4.addMixed hA').cast (by decide)
+  · exact t6.cast (by decide)
+  · exact (t6.addMixed hA').cast (by decide)
+  · exact t8.cast (by decide)
+  · exact (t1.addMixed h3).cast (by decide)
+  · exact (t2.addMixed h3).cast (by decide)
+  · exact ((t2.addMixed hA').addMixed h3).cast (by decide)
+  · exact (t4.addMixed h3).cast (by decide)
+  · exact ((t4.addMixed hA').addMixed h3).cast (by decide)
+  · exact (t6.addMixed h3).cast (by decide)
+  · exact ((t6.addMixed hA').addMixed h3).cast (by decide)
+
+theorem mulPrecomp3Loop_spec (g : G) (tbl : Array (Jac F)) (b0 b1 b2 b3 : ℕ)
+    (htbl : ∀ n < 16, ∃ e, tbl[n]? = some e ∧ IsMulJ M g e (spread 64 4 n))
+    (i : ℕ) (res : Jac F) (m : ℕ) (h : IsMulJ M g res m) :
+    ∃ R, mulPrecomp3Loop tbl b0 b1 b2 b3 i res = some R ∧
+      IsMulJ M g R (2 ^ i * m + colVal 64 [b0, b1, b2, b3] i) := by
+  induction i generalizing res m with
+  | zero => exact ⟨res, rfl, h.cast (by simp)⟩
+  | succ i ih =>
+    have hlt : nibbleAt b0 b1 b2 b3 i < 16 := by
+      rw [nibbleAt_eq]; exact colBits_lt [b0, b1, b2, b3] i
+    obtain ⟨e, he, hme⟩ := htbl _ hlt
+    obtain ⟨R, hR, hmR⟩ := ih (res.double.add e) _ (h.double.add hme)
+    refine ⟨R, ?_, hmR.cast ?_⟩
+    · rw [mulPrecomp3Loop]; simp [he, hR]
+    · rw [nibbleAt_eq, spread_colBits 64 4 [b0, b1, b2, b3] i (le_refl _)]; ring
+
+/-- `mul_precomp_3` computes `[k mod 2^256] A` and never panics, for any `pre` meeting the spec -/
+theorem mulPrecomp3_correct (A : Aff F) (hA : M.ValidA A) (pre : List (Aff F))
+    (hpre : Precomp3Spec M A pre) (k : ℕ) :
+    ∃ R, A.mulPrecomp3 k pre = some R ∧ M.ValidJ R ∧ M.absJ R = (k % 2 ^ 256) • M.absA A := by
+  obtain ⟨tbl, htbl, hspec⟩ := precomp3Table_spec M A hA pre hpre
+  have hlt : nibbleTop (limb k 0) (limb k 1) (limb k 2) (limb k 3) < 16 := by
+    rw [nibbleTop_eq]; exact colBits_lt [limb k 0, limb k 1, limb k 2, limb k 3] 63
+  obtain ⟨e, he, hme⟩ := hspec _ hlt
+  obtain ⟨R, hR, hmR⟩ := mulPrecomp3Loop_spec M _ tbl (limb k 0) (limb k 1) (limb k 2) (limb k 3)
+    hspec 63 e _ hme
+  refine ⟨R, ?_, hmR.1, ?_⟩
+  · simp only [Aff.mulPrecomp3, htbl, he, bind, Option.bind]
+    exact hR
+  · rw [hmR.2, nibbleTop_eq, Nat.add_comm, ← spread_colBits 64 4 [limb k 0, limb k 1, limb k 2, limb k 3] 63 (le_refl _), colVal_limbs64]
+
+/-! ## `precomp_256` / `mul_precomp_256` -/
+
+/-- table specification: `len` entries, entry `i` is `spread s m i` times the base -/
+def TableSpecA (g : G) (s m : ℕ) (pre : List (Aff F)) (len : ℕ) : Prop :=
+  pre.length = len ∧ ∀ i < len, ∃ e, pre[i]? = some e ∧ IsMulA M g e (spread s m i)
+
+theorem mapM_option_spec {α β : Type} (f : α → Option β) (Q : α → β → Prop) (l : List α)
+    (h : ∀ a ∈ l, ∃ b, f a = some b ∧ Q a b) :
+    ∃ l', l.mapM f = some l' ∧ List.Forall₂ Q l l' := by
+  induction l with
+  | nil => exact ⟨[], by simp, List.Forall₂.nil⟩
+  | cons a l ih =>
+    obtain ⟨b, hb, hq⟩ := h a (by simp)
+    obtain ⟨l', hl', hq'⟩ := ih (fun a ha => h a (by simp [ha]))
+    exact ⟨b :: l', by simp [List.mapM_cons, hb, hl'], List.Forall₂.cons hq hq'⟩
+
+theorem precomp256Stage_spec (g : G) (t : ℕ) (ht : t < 8) (pre : List (Aff F)) (pw : Jac F)
+    (hpre : TableSpecA M g 32 8 pre (2 ^ t)) (hpw : IsMulJ M g pw (2 ^ (32 * t))) :
+    ∃ pre', precomp256Stage pre pw = some pre' ∧ TableSpecA M g 32 8 pre' (2 ^ (t + 1)) := by
+  obtain ⟨top, htop, hmtop⟩ := hpw.toAffine
+  obtain ⟨hlen, hent⟩ := hpre
+  have hpos : 0 < 2 ^ t := Nat.pos_of_ne_zero (by positivity)
+  have hvalid : ∀ e ∈ pre, M.ValidA e := by
+    intro e he
+    obtain ⟨i, hi, rfl⟩ := List.getElem_of_mem he
+    obtain ⟨e', he', hm⟩ := hent i (hlen ▸ hi)
+    rw [List.getElem?_eq_getElem hi] at he'
+    cases he'; exact hm.1
+  obtain ⟨rest, hrest, hQ⟩ := mapM_option_spec
+    (fun e : Aff F => (e.toJac.addMixed top).toAffine)
+    (fun e e' => M.ValidA e' ∧ M.absA e' = M.absA e + 2 ^ (32 * t) • g) (pre.drop 1)
+    (fun e he => by
+      have hv := hvalid e (List.mem_of_mem_drop he)
+      obtain ⟨b, hb, hvb, hab⟩ := M.toAffine_ok _
+        (M.addMixed_valid _ _ (M.toJac_valid e hv) hmtop.1)
+      refine ⟨b, hb, hvb, ?_⟩
+      rw [hab, M.addMixed_abs _ _ (M.toJac_valid e hv) hmtop.1, M.toJac_abs e hv, hmtop.2])
+  obtain ⟨hlen2, hget⟩ := List.forall₂_iff_get.mp hQ
+  rw [List.length_drop, hlen] at hlen2
+  refine ⟨pre ++ [top] ++ rest, by simp only [precomp256Stage, htop, hrest, bind, Option.bind, pure], ?_, ?_⟩
+  · simp only [List.length_append, List.length_cons, List.length_nil, hlen, ← hlen2, pow_succ]
+    omega
+  · intro i hi
+    by_cases h1 : i < 2 ^ t
+    · obtain ⟨e, he, hm⟩ := hent i h1
+      refine ⟨e, ?_, hm⟩
+      rw [List.append_assoc, List.getElem?_append_left (hlen ▸ h1)]; exact he
+    · have h1' : 2 ^ t ≤ i := Nat.le_of_not_lt h1
+      obtain ⟨j, rfl⟩ := Nat.exists_eq_add_of_le h1'
+      have hj : j < 2 ^ t := by rw [pow_succ] at hi; omega
+      rw [spread_two_pow_add 32 8 t j ht hj]
+      rw [List.append_assoc, List.getElem?_append_right (hlen ▸ h1'), hlen, Nat.add_sub_cancel_left]
+      cases j with
+      | zero => exact ⟨top, by simp, hmtop.cast (by simp)⟩
+      | succ j =>
+        have hj1 : j < rest.length := by omega
+        have hj2 : j < (pre.drop 1).length := by rw [List.length_drop, hlen]; omega
+        have := hget j hj2 hj1
+        refine ⟨rest[j], by simp [hj1], this.1, ?_⟩
+        obtain ⟨e, he, hm⟩ := hent (j + 1) (by omega)
+        have hee : (pre.drop 1).get ⟨j, hj2⟩ = e := by
+          have : (pre.drop 1)[j]? = some e := by rw [List.getElem?_drop, Nat.add_comm]; exact he
+          rw [List.getElem?_eq_getElem hj2] at this
+          simpa using this
+        rw [List.get_eq_getElem] at this
+        rw [this.2, hee, hm.2]; module
+
+theorem precomp256Loop_spec (g : G) (n t : ℕ) (hnt : t + n ≤ 8) (pre : List (Aff F)) (pw : Jac F)
+    (hpre : TableSpecA M g 32 8 pre (2 ^ t)) (hpw : n ≠ 0 → IsMulJ M g pw (2 ^ (32 * t))) :
+    ∃ pre', precomp256Loop n pre pw = some pre' ∧ TableSpecA M g 32 8 pre' (2 ^ (t + n)) := by
+  induction n generalizing t pre pw with
+  | zero => exact ⟨pre, rfl, hpre⟩
+  | succ n ih =>
+    have hpw' := hpw (Nat.succ_ne_zero n)
+    obtain ⟨pre1, h1, hs1⟩ := precomp256Stage_spec M g t (by omega) pre pw hpre hpw'
+    obtain ⟨pre2, h2, hs2⟩ := ih (t + 1) (by omega) pre1
+      (if n = 0 then pw else pw.doubleN 32) hs1 (fun hn => by
+        rw [if_neg hn]
+        exact (hpw'.doubleN 32).cast (by rw [← pow_add]; congr 1; ring))
+    refine ⟨pre2, ?_, by rwa [Nat.add_assoc, Nat.add_comm 1 n] at hs2⟩
+    rw [precomp256Loop]
+    simp only [h1, bind, Option.bind]
+    exact h2
+
+/-- the specification of the table returned by `precomp_256` -/
+def Precomp256Spec (A : Aff F) (pre : List (Aff F)) : Prop :=
+  TableSpecA M (M.absA A) 32 8 pre 256
+
+/-- `precomp_256` never panics and returns the 256-entry table
+    `pre[i] = (Σ_{b ∈ bits of i} 2^(32 b)) · A` -/
+theorem precomp256_spec (A : Aff F) (hA : M.ValidA A) :
+    ∃ pre, A.precomp256 = some pre ∧ Precomp256Spec M A pre := by
+  have := precomp256Loop_spec M (M.absA A) 8 0 (by omega) [Aff.zero] A.toJac
+    ⟨rfl, fun i hi => ⟨Aff.zero, by
+      have : i = 0 := by simpa using hi
+      subst this
+      exact ⟨rfl, IsMulA.zero.cast (by simp)⟩⟩⟩
+    (fun _ => (IsMulA.self hA).toJac.cast (by simp))
+  exact this
+
+theorem mulPrecomp256Loop_spec (g : G) (pre : Array (Aff F)) (b0 b1 b2 b3 : ℕ)
+    (htbl : ∀ n < 256, ∃ e, pre[n]? = some e ∧ IsMulA M g e (spread 32 8 n))
+    (i : ℕ) (res : Jac F) (m : ℕ) (h : IsMulJ M g res m) :
+    ∃ R, mulPrecomp256Loop pre b0 b1 b2 b3 i res = some R ∧
+      IsMulJ M g R (2 ^ i * m + colVal 32 (pieces32 b0 b1 b2 b3) i) := by
+  induction i generalizing res m with
+  | zero => exact ⟨res, rfl, h.cast (by simp)⟩
+  | succ i ih =>
+    have hlt : byteAt b0 b1 b2 b3 i < 256 := by
+      rw [byteAt_eq]; exact colBits_pieces32_lt b0 b1 b2 b3 i
+    obtain ⟨e, he, hme⟩ := htbl _ hlt
+    obtain ⟨R, hR, hmR⟩ := ih (res.double.addMixed e) _ (h.double.addMixed hme)
+    refine ⟨R, ?_, hmR.cast ?_⟩
+    · rw [mulPrecomp256Loop]; simp only [he, bind, Option.bind]; exact hR
+    · rw [byteAt_eq, spread_colBits 32 8 (pieces32 b0 b1 b2 b3) i (le_refl _)]; ring
+
+/-- `mul_precomp_256` computes `[k mod 2^256] A` and never panics, for any table meeting the spec -/
+theorem mulPrecomp256_correct (A : Aff F) (pre : Array (Aff F))
+    (hpre : Precomp256Spec M A pre.toList) (k : ℕ) :
+    ∃ R, A.mulPrecomp256 k pre = some R ∧ M.ValidJ R ∧ M.absJ R = (k % 2 ^ 256) • M.absA A := by
+  have hspec : ∀ n < 256, ∃ e, pre[n]? = some e ∧ IsMulA M (M.absA A) e (spread 32 8 n) := by
+    intro n hn
+    obtain ⟨e, he, hm⟩ := hpre.2 n hn
+    exact ⟨e, by simpa using he, hm⟩
+  have hlt : byteTop (limb k 0) (limb k 1) (limb k 2) (limb k 3) < 256 := by
+    rw [byteTop_eq]; exact colBits_pieces32_lt _ _ _ _ 31
+  obtain ⟨e, he, hme⟩ := hspec _ hlt
+  obtain ⟨R, hR, hmR⟩ := mulPrecomp256Loop_spec M _ pre (limb k 0) (limb k 1) (limb k 2) (limb k 3)
+    hspec 31 e.toJac _ hme.toJac
+  refine ⟨R, ?_, hmR.1, ?_⟩
+  · simp only [Aff.mulPrecomp256, he, bind, Option.bind]
+    exact hR
+  · rw [hmR.2, byteTop_eq, Nat.add_comm,
+      ← spread_colBits 32 8 (pieces32 (limb k 0) (limb k 1) (limb k 2) (limb k 3)) 31 (le_refl _),
+      colVal_pieces32]
+
+/-! ## `sum_of_products_precomp_256` -/
+
+/-- the eight 32-bit pieces of a 256-bit scalar -/
+def scalarPieces (k : ℕ) : List ℕ := pieces32 (limb k 0) (limb k 1) (limb k 2) (limb k 3)
+
+theorem list_sum_combine {α : Type} (c : ℕ) (f g h : α → G) (l : List α)
+    (H : ∀ x ∈ l, c • f x + g x = h x) :
+    c • (l.map f).sum + (l.map g).sum = (l.map h).sum := by
+  induction l with
+  | nil => simp
+  | cons a l ih =>
+    simp only [List.map_cons, List.sum_cons]
+    rw [← H a (by simp), ← ih (fun x hx => H x (by simp [hx]))]
+    module
+
+theorem map_snd_zip_take {α β : Type} (ps : List α) (ks : List β) :
+    (List.zip ps ks).map Prod.snd = ks.take (min ps.length ks.length) := by
+  induction ps generalizing ks with
+  | nil => simp
+  | cons p ps ih =>
+    cases ks with
+    | nil => simp
+    | cons k ks => simp [ih, Nat.succ_min_succ]
+
+/-- `pre[256 j + i] = spread 32 8 i · P_j` for the first `l.length` points -/
+def SopTableSpec (l : List (Aff F × ℕ)) (j0 : ℕ) (pre : Array (Aff F)) : Prop :=
+  ∀ t (ht : t < l.length), ∀ n < 256, ∃ e, pre[256 * (j0 + t) + n]? = some e ∧
+    IsMulA M (M.absA l[t].1) e (spread 32 8 n)
+
+theorem sopPrecompInner_spec (pre : Array (Aff F)) (i : ℕ) (l : List (Aff F × ℕ)) (j0 : ℕ)
+    (hpre : SopTableSpec M l j0 pre) (res : Jac F) (hres : M.ValidJ res) :
+    ∃ R, sopPrecompInner pre i (l.map Prod.snd) j0 res = some R ∧ M.ValidJ R ∧
+      M.absJ R = M.absJ res +
+        (l.map (fun pk => spread 32 8 (colBits (scalarPieces pk.2) i) • M.absA pk.1)).sum := by
+  induction l generalizing j0 res with
+  | nil => exact ⟨res, rfl, hres, by simp⟩
+  | cons pk l ih =>
+    have hlt : byteAt (limb pk.2 0) (limb pk.2 1) (limb pk.2 2) (limb pk.2 3) i < 256 := by
+      rw [byteAt_eq]; exact colBits_pieces32_lt _ _ _ _ i
+    obtain ⟨e, he, hme⟩ := hpre 0 (by simp) _ hlt
+    obtain ⟨R, hR, hvR, haR⟩ := ih (j0 + 1)
+      (fun t ht n hn => by
+        have := hpre (t + 1) (by simpa using ht) n hn
+        simpa [Nat.add_assoc, Nat.add_comm 1 t] using this)
+      (res.addMixed e) (M.addMixed_valid _ _ hres hme.1)
+    refine ⟨R, ?_, hvR, ?_⟩
+    · rw [List.map_cons, sopPrecompInner]
+      simp only [Nat.shiftLeft_eq, bind, Option.bind]
+      rw [show j0 * 2 ^ 8 = 256 * (j0 + 0) by ring, he]
+      exact hR
+    · rw [haR, M.addMixed_abs _ _ hres hme.1, hme.2, List.map_cons, List.sum_cons, byteAt_eq]
+      simp only [List.getElem_cons_zero, scalarPieces]
+      module
+
+theorem sopPrecompOuter_spec (pre : Array (Aff F)) (l : List (Aff F × ℕ))
+    (hpre : SopTableSpec M l 0 pre) (i : ℕ) (res : Jac F) (hres : M.ValidJ res) :
+    ∃ R, sopPrecompOuter pre (l.map Prod.snd) i res = some R ∧ M.ValidJ R ∧
+      M.absJ R = 2 ^ i • M.absJ res +
+        (l.map (fun pk => colVal 32 (scalarPieces pk.2) i • M.absA pk.1)).sum := by
+  induction i generalizing res with
+  | zero => exact ⟨res, rfl, hres, by simp⟩
+  | succ i ih =>
+    obtain ⟨R1, hR1, hv1, ha1⟩ := sopPrecompInner_spec M pre i l 0 hpre res.double
+      (M.double_valid _ hres)
+    obtain ⟨R, hR, hvR, haR⟩ := ih R1 hv1
+    refine ⟨R, ?_, hvR, ?_⟩
+    · rw [sopPrecompOuter]; simp only [hR1, bind, Option.bind]; exact hR
+    · rw [haR, ha1, M.double_abs _ hres,
+        ← list_sum_combine (2 ^ i)
+          (fun pk : Aff F × ℕ => spread 32 8 (colBits (scalarPieces pk.2) i) • M.absA pk.1)
+          (fun pk => colVal 32 (scalarPieces pk.2) i • M.absA pk.1)
+          (fun pk => colVal 32 (scalarPieces pk.2) (i + 1) • M.absA pk.1) l
+          (fun pk _ => by
+            rw [spread_colBits 32 8 (scalarPieces pk.2) i (le_refl _)]; module)]
+      module
+
+/-- what `sum_of_products_precomp_256` expects of `pre`: `pre[256 j + i] = spread 32 8 i · P_j`
+    (the comment in the Rust source), for the `min(#points, #scalars)` points actually used -/
+def SopPrecompSpec (points : List (Aff F)) (ks : List ℕ) (pre : Array (Aff F)) : Prop :=
+  SopTableSpec M (List.zip points ks) 0 pre
+
+theorem sumOfProductsPrecomp256_correct (points : List (Aff F)) (ks : List ℕ)
+    (pre : Array (Aff F)) (hpre : SopPrecompSpec M points ks pre) :
+    ∃ R, sumOfProductsPrecomp256 points ks pre = some R ∧ M.ValidJ R ∧
+      M.absJ R = ((List.zip points ks).map (fun pk => (pk.2 % 2 ^ 256) • M.absA pk.1)).sum := by
+  obtain ⟨R, hR, hvR, haR⟩ := sopPrecompOuter_spec M pre (List.zip points ks) hpre 32 Jac.zero
+    M.zero_valid
+  refine ⟨R, ?_, hvR, ?_⟩
+  · rw [sumOfProductsPrecomp256, ← map_snd_zip_take]; exact hR
+  · rw [haR, M.zero_abs, nsmul_zero, zero_add]
+    congr 1
+    apply List.map_congr_left
+    intro pk _
+    rw [scalarPieces, colVal_pieces32]
+
+theorem sumOfProductsPrecomp256_correct_lt (points : List (Aff F)) (ks : List ℕ)
+    (pre : Array (Aff F)) (hpre : SopPrecompSpec M points ks pre) (hk : ∀ k ∈ ks, k < 2 ^ 256) :
+    ∃ R, sumOfProductsPrecomp256 points ks pre = some R ∧ M.ValidJ R ∧
+      M.absJ R = ((List.zip points ks).map (fun pk => pk.2 • M.absA pk.1)).sum := by
+  obtain ⟨R, hR, hvR, haR⟩ := sumOfProductsPrecomp256_correct M points ks pre hpre
+  refine ⟨R, hR, hvR, ?_⟩
+  rw [haR]
+  congr 1
+  apply List.map_congr_left
+  intro pk hpk
+  rw [Nat.mod_eq_of_lt (hk _ (List.of_mem_zip (a := pk.1) (b := pk.2) hpk).2)]
+
+theorem getElem?_flatten_const {α : Type} (c : ℕ) (T : List (List α)) (hT : ∀ t ∈ T, t.length = c)
+    (j i : ℕ) (hi : i < c) : T.flatten[c * j + i]? = (T[j]?).bind (fun t => t[i]?) := by
+  induction T generalizing j with
+  | nil => simp
+  | cons t T ih =>
+    have ht : t.length = c := hT t (by simp)
+    cases j with
+    | zero =>
+      rw [List.flatten_cons, Nat.mul_zero, Nat.zero_add, List.getElem?_append_left (ht ▸ hi)]
+      simp
+    | succ j =>
+      rw [List.flatten_cons, List.getElem?_append_right (by rw [ht, Nat.mul_succ]; omega), ht,
+        show c * (j + 1) + i - c = c * j + i by rw [Nat.mul_succ]; omega,
+        ih (fun t ht => hT t (by simp [ht]))]
+      simp
+
+/-- the concatenation of per-point tables meeting the `precomp_256` spec is a valid `pre` -/
+theorem sopPrecompSpec_of_tables (points : List (Aff F)) (ks : List ℕ)
+    (tables : List (List (Aff F)))
+    (h : List.Forall₂ (fun P t => Precomp256Spec M P t) points tables) :
+    SopPrecompSpec M points ks tables.flatten.toArray := by
+  obtain ⟨hlen, hget⟩ := List.forall₂_iff_get.mp h
+  have hT : ∀ t ∈ tables, t.length = 256 := by
+    intro t ht
+    obtain ⟨j, hj, rfl⟩ := List.getElem_of_mem ht
+    exact (hget j (hlen ▸ hj) hj).1
+  intro t ht n hn
+  rw [List.length_zip] at ht
+  have ht1 : t < points.length := by omega
+  have ht2 : t < tables.length := hlen ▸ ht1
+  obtain ⟨e, he, hme⟩ := (hget t ht1 ht2).2 n hn
+  refine ⟨e, ?_, ?_⟩
+  · rw [Nat.zero_add, List.getElem?_toArray, getElem?_flatten_const 256 tables hT t n hn,
+      List.getElem?_eq_getElem ht2]
+    simpa using he
+  · simpa using hme
+
+/-- the table-driven multi-scalar multiplication, with tables built by `precomp_256` -/
+theorem sumOfProductsPrecomp256_precomp (points : List (Aff F)) (ks : List ℕ)
+    (hP : ∀ P ∈ points, M.ValidA P) (hk : ∀ k ∈ ks, k < 2 ^ 256) :
+    ∃ tables, points.mapM Aff.precomp256 = some tables ∧
+      ∃ R, sumOfProductsPrecomp256 points ks tables.flatten.toArray = some R ∧ M.ValidJ R ∧
+        M.absJ R = ((List.zip points ks).map (fun pk => pk.2 • M.absA pk.1)).sum := by
+  obtain ⟨tables, ht, hQ⟩ := mapM_option_spec Aff.precomp256 (fun P t => Precomp256Spec M P t)
+    points (fun P hPm => precomp256_spec M P (hP P hPm))
+  exact ⟨tables, ht, sumOfProductsPrecomp256_correct_lt M points ks _
+    (sopPrecompSpec_of_tables M points ks tables hQ) hk⟩
+
 end PP
